@@ -7,7 +7,8 @@ ENGINE = "timer"
 RULE = ("operation lists on the real TimerHeap / Sleep through the verification hook, in virtual time: ALL lists up to length 4-5 "
         "(quick) / 6 (thorough) over {push x3, remove x2, advance x2, service} and over {sleep x2, poll x2, drop, recv, service, "
         "advance}; random lists of 5-60 operations with ids 0..5, deadlines within +-10 units of now (many ties), "
-        "durations 0..3, mixed direct heap operations and Sleep traffic; plus real-time smoke ops of the public API; "
+        "durations 0..3, mixed direct heap operations and Sleep traffic; plus real-time smoke ops of the public API (incl. "
+        "block_timeout around futures that need 1-70 wake-ups far inside the timeout); "
         "non-trivial = at least one service that wakes something or one poll that is ready, or a smoke op")
 ASSUMPTIONS = [
     "std::collections::BinaryHeap pops a maximal element w.r.t. Ord (here: an earliest deadline); std::sync::mpsc is FIFO",
@@ -34,6 +35,10 @@ CORPUS = [
     ["sleep 0 2", "poll 0", "drop 0", "advance 5", "recv", "service", "recv", "service"],
     ["smoke.sleep 1", "smoke.sleep 7", "smoke.sleep 20", "smoke.sleeps 8 2", "smoke.drop 60", "smoke.block_on 4",
      "smoke.timeout 300 5", "smoke.timeout 2 300"],
+    # block_timeout around futures that need many wake-ups far inside the timeout (k sleeps of ms under d x 10 ms):
+    # ten 30 ms sleeps under 1 s; sixty 10 ms sleeps under 10 s; 1 / 5 / 20 short sleeps under 5 s; self-wakes
+    ["smoke.chain 10 30 100", "smoke.chain 60 10 1000", "smoke.chain 1 10 500", "smoke.chain 5 10 500",
+     "smoke.chain 20 10 500", "smoke.yields 200 200"],
 ]
 
 
@@ -213,7 +218,9 @@ def run(ctx):
     for k in range(2 if quick else 25):
         cases.append(Case([f"smoke.sleep {r.range(1, 20)}", f"smoke.sleeps {r.range(2, 12)} {r.range(1, 5)}",
                            f"smoke.block_on {r.below(1000)}", f"smoke.timeout {r.range(250, 400)} {r.range(1, 20)}",
-                           f"smoke.timeout {r.range(1, 3)} {r.range(200, 400)}"] + ([f"smoke.drop {r.range(50, 90)}"] if k % 2 == 0 else [])))
+                           f"smoke.timeout {r.range(1, 3)} {r.range(200, 400)}"] + ([f"smoke.drop {r.range(50, 90)}"] if k % 2 == 0 else [])
+                          + ([f"smoke.chain {r.range(8, 14)} {r.range(20, 40)} 100", f"smoke.chain {r.range(50, 70)} {r.range(8, 12)} 1000",
+                              f"smoke.yields {r.range(1, 500)} 200"] if k % 3 == 0 else [])))
     for c in cases:
         for l in c.lines:
             ctx.count(l.split()[0])
@@ -231,8 +238,9 @@ LEVEL_TEXT = ("PARTIAL (logic only). Kernel-checked Lean theorems for ALL operat
               "a Ready poll (C42_wake_then_ready), a sleep whose last poll was Pending always has a Wake with its deadline queued "
               "or in the heap and is woken by the first wake loop after the deadline once the queue is drained (C42_eventually), "
               "a dropped sleep is silent for ever once its Cancel is processed (C42_cancelled_silent; the wake in flight before "
-              "that is exhibited by C42_wake_before_cancel_witness); block_timeout returns Timeout only after a Pending poll and an "
-              "exhausted duration and returns the value whenever a poll is Ready (C42_block_timeout_sound, _ok_iff). The heap, "
+              "that is exhibited by C42_wake_before_cancel_witness); block_timeout returns Timeout "
+              "never before start + duration whatever the number of wake-ups, always decides, and returns the value whenever a poll is "
+              "Ready (C42_block_timeout_no_early_timeout, _decides, _ok_iff, for ALL wake-up sequences). The heap, "
               "Sleep::poll, Drop and the thread's message handling are tied to the real code in virtual time through the hook "
               "std_runtime::timer::verif; block_on / block_timeout / real sleeps only by a real-time smoke test.")
 LEVEL_NOTE = ("Outside the model, hence NOT proved: thread scheduling, recv_timeout / thread::park latency and spurious wake-ups, the "
